@@ -582,6 +582,60 @@ EXH_CHUNK = 120
 RAND_BATCH = 75
 
 
+def failed_dump(v, rng, geom, backends, scratch, hid):
+    """A dump whose value cannot be stored (the backend's serialisation raises) must leave NOTHING observable behind: every
+    read gives what it gave before. (Backends that keep values in memory accept any object; nothing is demanded of them.)"""
+    import threading
+
+    S, I, mask = geom
+    reg = registry()
+    m = M.RefArray(S, I, mask)
+    pre = [["dump", random_key(rng, m.S, p_slice=0.0)] for _ in range(rng.randint(0, 2))]
+    victim = random_key(rng, m.S, p_slice=0.0)
+    reads = [["to_array"], ["mask"], ["mask_linear"]] + [["has_index", k] for k in range(len(m.ext_indices))] + \
+        [["get", M.encode_key(tuple(e) + (slice(None),) * len(I))] for e in m.ext_indices][:6]
+    for name in backends:
+        if name in SLOW:
+            continue
+        folder = os.path.join(scratch, f"fd{hid}-{name}")
+        try:
+            arr = reg[name](folder, S, I, mask)
+            for j, op in enumerate(pre):
+                arr.dump(M.decode_key(op[1]), make_value(I, j))
+        except Exception:  # noqa: BLE001  (judged by the histories)
+            continue
+
+        def observe():
+            out = []
+            for op in reads:
+                try:
+                    out.append(short(sut_read(arr, op), 300))
+                except Exception as e:  # noqa: BLE001
+                    out.append(f"EXC {type(e).__name__}")
+            return out
+        before = observe()
+        bad_value = threading.Lock()
+        if I:
+            a = np.empty(I, dtype=object)
+            for idx in np.ndindex(*I):
+                a[idx] = "x"
+            a[(0,) * len(I)] = bad_value
+            bad_value = a
+        try:
+            arr.dump(M.decode_key(victim), bad_value)
+        except Exception:  # noqa: BLE001
+            v.count("dumps_that_raised")
+            v.count(f"dumps_that_raised:{name}")
+            after = observe()
+            if after != before:
+                k = next(k for k in range(len(reads)) if after[k] != before[k])
+                v.bad(f"failed-dump-left-a-trace/{name}:{reads[k][0]}", f"after dump({M.show_key(M.decode_key(victim))}, <unpicklable>) raised, "
+                      f"{reads[k]} changed from {before[k]} to {after[k]}", backend=name, shape=list(S), internal_shape=list(I),
+                      shape_mask=list(mask), earlier_dumps=pre)
+        else:
+            v.count("unstorable_value_accepted_in_memory")
+
+
 def plan(tier, seed):
     descs = []
     for gi, geom in enumerate(GEOMS):
@@ -663,6 +717,8 @@ def run_case(desc):
             v.count("histories_random")
             if nd:
                 keys.append(hist_key(geom, backends, ops))
+            if i % 4 == 0:
+                failed_dump(v, rng, geom, list(registry()), scratch, i)
             if sample is None and i == 7 and desc["batch"] % 80 == 0:
                 sample = {"shape": geom[0], "internal_shape": geom[1], "shape_mask": geom[2], "backends": backends,
                           "ops": ops[:20], "n_ops": len(ops)}
@@ -690,6 +746,8 @@ def finalize(agg, tier, seed):
             need = 5 if q else 50
             if c.get(f"pair:{pat}:{kind}", 0) < need:
                 floors.append(f"(mask pattern {pat} x op {kind}) observed {c.get(f'pair:{pat}:{kind}', 0)} times (< {need})")
+    if c.get("dumps_that_raised:file_array", 0) < (100 if q else 1000):
+        floors.append(f"only {c.get('dumps_that_raised:file_array', 0)} dumps of an unstorable value observed on file_array")
     need = 10 ** 4 if q else 10 ** 5
     if c.get("xbackend_comparisons", 0) < need:
         floors.append(f"only {c.get('xbackend_comparisons', 0)} cross-backend comparisons (< {need})")
